@@ -160,6 +160,33 @@ def stage_b(prop, cfg, tier, seed, log):
             res["mismatches"].append({"group": gname, "function": "(case generation)",
                                       "request": "", "implementation": "raised %r" % (exc,),
                                       "model": "", "input": {"after_cases": len(cases)}})
+        for bulk in spec.get("bulk_" + tier, []):
+            # large exhaustive domains: plain lists instead of Case objects
+            try:
+                fn_, reqs, exps, describe = getattr(mod, bulk)()
+                outs = common.run_model(reqs)
+                nbad = 0
+                for i_, (e_, o_) in enumerate(zip(exps, outs)):
+                    if e_ != o_ and not common.tokens_agree(e_, o_):
+                        nbad += 1
+                        if len(res["mismatches"]) < 20:
+                            res["mismatches"].append({"group": gname, "function": fn_, "request": reqs[i_],
+                                                      "implementation": e_, "model": o_,
+                                                      "input": describe(i_)})
+                res["functions"][fn_] = res["functions"].get(fn_, 0) + len(reqs)
+                res["groups"][gname + ":" + bulk] = {"cases": len(reqs), "distinct": len(reqs),
+                                                     "mismatches": nbad, "exhaustive": True}
+                res["cases"] += len(reqs)
+                res["distinct"] += len(reqs)
+                if nbad:
+                    res["ok"] = False
+                log("bulk %s: %d cases, %d mismatches" % (bulk, len(reqs), nbad))
+            except Exception as exc:  # noqa: BLE001
+                log(traceback.format_exc())
+                res["ok"] = False
+                res["mismatches"].append({"group": gname, "function": bulk, "request": "",
+                                          "implementation": "raised %r" % (exc,), "model": "",
+                                          "input": {}})
         pre = [z.line() for z in zones.all_used()]
         out = common.run_model([c.request for c in cases], pre)
         stats = {}
